@@ -22,7 +22,7 @@ func init() { register("C05", runC05) }
 
 // c05Case is a self-contained replay case.
 type c05Case struct {
-	Level   string `json:"level"` // kept | tree | report | cli
+	Level   string `json:"level"` // kept | tree | report | cli | web
 	Profile string `json:"profile"`
 	Req     gReq   `json:"req"`
 	// kept / tree level: which entries are kept: indices into the untrimmed node list sorted by key
@@ -38,6 +38,7 @@ type c05Case struct {
 	Gran      string `json:"granularity,omitempty"`
 	NoInlines bool   `json:"noinlines,omitempty"`
 	Strategy  string `json:"kept_strategy,omitempty"`
+	Query     string `json:"query,omitempty"` // web level: URL query of the /top request
 }
 
 func frac(num, den int64) float64 {
@@ -876,6 +877,8 @@ func c05Run(c *Ctx, cs *c05Case) {
 		if c.Pprof != "" {
 			c05CLICheck(c, cs, runPprof(c, cs.Profile, cs.cliArgs, 0))
 		}
+	case "web":
+		c05Web(c, cs, nil, nil)
 	}
 }
 
@@ -927,7 +930,7 @@ func c05PickKept(r *Rng, strategy string, g *graph.Graph, order []*graph.Node) [
 var c05KeptStrategies = []string{"random", "remove-leaves", "remove-roots", "remove-middles", "remove-one", "remove-all", "keep-one", "cutoff", "top-n"}
 
 func runC05(c *Ctx) {
-	c.Res.Rule = "profiles as for C04 (9 stack-shape strategies, small values so that fraction products are exact) × (a) graph.New rebuilt with a kept set chosen by 9 strategies (random, remove leaves / roots / chain middles / one / all, keep one, cum cutoff, top-N) — shown figures vs the untrimmed graph.New and vs the Lean Spec under K incl. residual weights and marks, model correspondence; (b) TrimTree on call trees with kept pointer sets — direct oracle (kept nodes only, figures unchanged, every edge comes from an ancestor and is residual iff it bypasses a node, no edge to a removed node, In/Out agree), vs Lean Spec on path keys, and correspondence with the Lean model of TrimTree (In and Out maps of every listed node, node order as in Go, unlisted all-zero nodes included); (c) report.Generate text/tree/topproto/dot with nodecount × nodefraction × edgefraction × sort grids — shown rows ⊆ untrimmed rows, selection = Lean Trim model, legend 'accounting for' = Σ shown flat, dot residual marks vs Spec under the survivor set, no dangling edges; (c2) tree / text / peek reports with nodecount chosen relative to the measured counts N (entries of the untrimmed graph) and S (survivors of the nodefraction cut): nodecount ∈ {S−1, S, S+1, (S+N)/2, N−1, N, N+1}, fraction preferring 0<S<N; for tree/peek (all levels) the complete caller/callee context of every shown entry = Lean Spec under the shown set minus edges below the edge cutoff (no removed entry is named, bypass edges present); (d) the same through the pprof CLI (text, tree, dot, topproto; -peek switches trimming off in the driver, so peek under trimming is exercised in-process only). non-trivial = the trimming removed at least one entry; distinct by canonical profile + options"
+	c.Res.Rule = "profiles as for C04 (9 stack-shape strategies, small values so that fraction products are exact) × (a) graph.New rebuilt with a kept set chosen by 9 strategies (random, remove leaves / roots / chain middles / one / all, keep one, cum cutoff, top-N) — shown figures vs the untrimmed graph.New and vs the Lean Spec under K incl. residual weights and marks, model correspondence; (b) TrimTree on call trees with kept pointer sets — direct oracle (kept nodes only, figures unchanged, every edge comes from an ancestor and is residual iff it bypasses a node, no edge to a removed node, In/Out agree), vs Lean Spec on path keys, and correspondence with the Lean model of TrimTree (In and Out maps of every listed node, node order as in Go, unlisted all-zero nodes included); (c) report.Generate text/tree/topproto/dot with nodecount × nodefraction × edgefraction × sort grids — shown rows ⊆ untrimmed rows, selection = Lean Trim model, legend 'accounting for' = Σ shown flat, dot residual marks vs Spec under the survivor set, no dangling edges; (c2) tree / text / peek reports with nodecount chosen relative to the measured counts N (entries of the untrimmed graph) and S (survivors of the nodefraction cut): nodecount ∈ {S−1, S, S+1, (S+N)/2, N−1, N, N+1}, fraction preferring 0<S<N; for tree/peek (all levels) the complete caller/callee context of every shown entry = Lean Spec under the shown set minus edges below the edge cutoff (no removed entry is named, bypass edges present); (d) the same through the pprof CLI (text, tree, dot, topproto; -peek switches trimming off in the driver, so peek under trimming is exercised in-process only). (e) web UI: /top of the web interface (HTTPServer hook) on one or two profiles per run with more entries than every built-in limit (300–900 functions; the view forces nodecount 500) with nf/n/sort/si URL parameters — on the SERVED rows and header: legend 'accounting for' = Σ flat of the rows served, rows = Lean Trim selection with the Lean Spec's untrimmed figures, 'Showing top N nodes out of M' present iff rows were cut (N, M checked); plus CLI -text on the same profiles with -nodecount 499/500/501/entries±1/80. non-trivial = the trimming removed at least one entry; distinct by canonical profile + options"
 	if c.Replay != "" {
 		var cs c05Case
 		if err := c.LoadReplay(&cs); err != nil {
@@ -1144,6 +1147,8 @@ func runC05(c *Ctx) {
 			}
 		}
 	}
+	// (e) web UI stream and CLI reports on profiles larger than every built-in limit
+	c05WebStream(c, &cliCases)
 	results := make([]cliResult, len(cliCases))
 	var wg sync.WaitGroup
 	sem := make(chan struct{}, 12)
